@@ -116,6 +116,7 @@ PROPS = {
             {"run": "TestC16Names", "quick": 60000, "thorough": 3000000, "shards_quick": 4, "shards_thorough": 16},
             {"run": "TestC16Buckets", "quick": 6000, "thorough": 300000, "shards_quick": 6, "shards_thorough": 16},
             {"run": "TestC16Settings", "quick": 6000, "thorough": 300000, "shards_quick": 6, "shards_thorough": 16},
+            {"run": "TestC16Delete", "quick": 3000, "thorough": 200000, "shards_quick": 3, "shards_thorough": 16},
             {"run": "TestC16Race", "quick": 3000, "thorough": 300000, "shards_quick": 6, "shards_thorough": 16},
         ],
     },
